@@ -12,6 +12,7 @@ EXPLANATION = (
     "byte currently iterated from a str, pushed exactly once and last. R03.3: the tag padding tails of parse_tokenized "
     "and parse_partial_annotation are twins."
 )
+THOROUGH_CONFIGS = [C.MINIMAL, C.NO_TAG]
 NOT_DECIDED = ["equality of the re-parsed sentence as a value", "idempotence of write-after-parse as a value"]
 
 PT = C.S + "::parse_tokenized"
@@ -19,8 +20,7 @@ WT = C.S + "::write_tokenized_text"
 
 
 def run(chk):
-    w = facts.world("W")
-    chk.configs.add("W")
+    w = C.world_for(chk)
     chk.rule("R03.1", "parser specials == writer escape sets (surface and tag), same escape character, separators agree")
     chk.rule("R03.2", "only ASCII constants and the iterated byte (once, in order) are pushed into the String's byte vector")
     chk.rule("R03.3", "tag padding tails of the two parsers are twins")
